@@ -198,7 +198,8 @@ def c19a(ctx):
         if is_call(x, 'seek'):
             cur = try_const(x.args[0], repo, mod)
         else:
-            f = _fmt(x.args[0], repo, mod)
+            base = x.func.value        # struct.pack(F, ..) / S.pack(..) with S = struct.Struct(F)
+            f = (_fmt(x.args[0], repo, mod) if x.args else None) if isinstance(base, ast.Name) and base.id == 'struct' else _fmt(base, repo, mod)
             pairs.append((cur, f, x))
     want_fields = {'max record size': 2, 'file size': 5}
     for off, f, x in pairs:
